@@ -16,7 +16,7 @@
 (*   "hash_reuse_eq":b,            decode from a scratch buffer, overwrite *)
 (*                                 the buffer, PayloadHash = hash of a     *)
 (*                                 value decoded from an intact copy       *)
-(*   "hash_moves_after_edit":b,    decode, append one byte to Extra,       *)
+(*   "hash_moves_after_edit":b,    decode, change the last byte of Extra,  *)
 (*                                 PayloadHash differs from the unedited   *)
 (*   "nin":n,"nout":n,"nref":n,"extra_n":n,"sigkind":s,"signers":[..]}     *)
 (*  {"ev":"Pair","idx":n,"sline":n,"f":field,"res":"ok"|"panic",           *)
